@@ -18,13 +18,22 @@ ITEM_CLASS = {
     "variant": "variant", "field": "field", "trait": "trait", "pkg-trait": "pkg-trait",
     "trait-method": "method", "inherent-method": "method", "pkg-inherent-method": "pkg-method", "pkg-trait-method": "pkg-method",
     "local": "local", "type-parameter": "type-parameter", "pkg-name": "package",
+    "dyn-method": "method", "trait-instance-impl-method": "method", "generic-impl-method": "method",
+    "closure-param": "local", "pattern-binder": "local", "fn-value": "fn",
+    "generic-variant": "variant", "generic-field": "field", "pkg-variant": "variant", "pkg-field": "field",
 }
 REL_CLASS = {"=w": "equal", "case": "other-case", "control": "control"}   # every other relation: "affix"
 
 
-def signature(kind, rel, stem):
+def signature(kind, rel, stem, word_class=None, failure=None):
     """which name test is passed by accident, by what kind of name: the class of the item (where its name ends
-    up in the Go), the relation class and the stem; the individual Go.Check error is in the payload"""
+    up in the Go), the relation class and the stem; the individual Go.Check error is in the payload.
+    A word of the Go dictionary (no name test of the back end: the name means something to Go) is keyed by its
+    CLASS — go-keyword / go-predeclared / runtime-name — not by the word: one defect of an emission site shows
+    with every keyword alike — together with HOW the output fails (compiler-panic, go-printer:parse-error,
+    gocheck:<first error code>), so that a recorded finding does not hide another failure of the same cell."""
+    if word_class is not None:
+        return {"oracle": "name-test", "item": ITEM_CLASS.get(kind, kind), "relation": "equal", "go_word": word_class, "failure": failure}
     return {"oracle": "name-test", "item": ITEM_CLASS.get(kind, kind), "relation": REL_CLASS.get(rel, "affix"), "stem": stem}
 
 
@@ -38,25 +47,40 @@ def evaluate(ctx, classify=None):
         ctx.broken_ties.append(("translator", f"c02_name_tests: {e}"))
         return {"programs": 0}, found
     stems = nt["stems"]
-    progs, feats = c01.collect(ctx, sub="c02names", extra=["--stems", ",".join(stems)])
+    try:
+        words = {w: c for w, c in extract.c02_go_words().items() if w not in stems}
+    except Exception as e:
+        ctx.broken_ties.append(("translator", f"c02_go_words: {e}"))
+        words = {}
+    progs, feats = c01.collect(ctx, sub="c02names", extra=["--stems", ",".join(stems), "--words", ",".join(words)])
     rows = vlib.read_tsv(os.path.join(ctx.run_dir, "c02names.cases.tsv"))
     meta = {r[0]: r[2:6] for r in rows if len(r) >= 6 and r[1] == "NAME"}
+    # the text oracle's own negative controls: goparse.rs refuses every Go keyword in every identifier position
+    st = next((r for r in rows if r[0] == "#GOPARSE-KEYWORDS"), None)
+    if st is None or st[1] != "ok":
+        ctx.broken_ties.append(("goparse keyword self-test", "missing" if st is None else vlib.unesc(st[2])[:600]))
     lines = [f"{pid}\t{d['stages']['go']}" for pid, d in progs.items() if "go" in d["stages"]]
     res = c01.gocheck(ctx, lines) if lines else {}
     n = collections.Counter()
     by_kind, by_rel = collections.Counter(), collections.Counter()
     rejected_at = collections.Counter()
     codes = collections.Counter()
+    by_class, acc_class = collections.Counter(), collections.Counter()
     samples = []
     for pid, d in sorted(progs.items()):
         kind, rel, stem, name = meta.get(pid, ("?", "?", "?", "?"))
         case = f"{kind}/{rel}:{stem}"
         n["programs"] += 1
         payload = {"id": pid, "item_kind": kind, "relation": rel, "stem": stem, "name": name, "src": d.get("src")}
-        sig = signature(kind, rel, stem)
+        wclass = words.get(stem) if rel == "=w" else None
+        sig_of = lambda failure: signature(kind, rel, stem, wclass, failure)
+        if wclass:
+            payload["go_word_class"] = wclass
+            n["go_word_programs"] += 1
+            by_class[wclass] += 1
         if "panic" in d:
             n["panic"] += 1
-            found.append((sig, f"a {kind} named `{name}`: the front end accepts the program and the compiler panics: {d['panic'][:120]}",
+            found.append((sig_of("compiler-panic"), f"a {kind} named `{name}`: the front end accepts the program and the compiler panics: {d['panic'][:120]}",
                           dict(payload, failure="compiler-panic", panic=d["panic"][:400])))
             continue
         if "reject" in d:
@@ -66,16 +90,25 @@ def evaluate(ctx, classify=None):
                 ctx.broken_ties.append(("name-test template", f"{pid}: the control program is rejected: {d['reject'][1][:200]}"))
             continue
         n["accepted"] += 1
+        if wclass:
+            acc_class[wclass] += 1
         by_kind[kind] += 1
         by_rel[rel] += 1
         r = res.get(pid)
         if r is None or r[0] in ("decode-error", "parse-error"):
             ctx.broken_ties.append(("gocheck driver", f"{pid}: {r}"))
             continue
+        # the Go.Check errors of the program (its real AST), the first one in the text
+        errs = []
+        if r[0] != "ok":
+            for e in r[1].split(" ;; "):
+                parts = e.split("|", 2)
+                errs.append({"code": parts[0], "function": parts[1] if len(parts) > 1 else "", "detail": (parts[2] if len(parts) > 2 else "")[:200]})
         pp = d.get("pprint")
         if pp is not None and pp[0] != "ok":
-            found.append((sig, f"a {kind} named `{name}`: the printed Go text does not parse back to the Go AST it was printed from",
-                          dict(payload, failure="go-printer:" + pp[0], detail=pp[1][:600])))
+            found.append((sig_of("go-printer:" + pp[0]), f"a {kind} named `{name}`: the printed Go text does not parse as Go / not back to the Go AST it was printed from: {pp[1][:140]}"
+                          + (f"; Go.Check on the AST: {errs[0]['code']} {errs[0]['detail'][:80]}" if errs else ""),
+                          dict(payload, failure="go-printer:" + pp[0], detail=pp[1][:600], errors=errs[:8])))
             continue
         if r[0] == "ok":
             n["accepted_by_gocheck"] += 1
@@ -85,18 +118,18 @@ def evaluate(ctx, classify=None):
         if rel == "control":
             ctx.broken_ties.append(("name-test template", f"{pid}: Go.Check rejects the control program: {r[1][:200]}"))
             continue
-        # one report per program: its Go.Check errors, the first one in the text
-        errs = []
-        for e in r[1].split(" ;; "):
-            parts = e.split("|", 2)
-            errs.append({"code": parts[0], "function": parts[1] if len(parts) > 1 else "", "detail": (parts[2] if len(parts) > 2 else "")[:200]})
+        # one report per program
         n["gocheck_rejects"] += 1
         codes[errs[0]["code"]] += 1
-        found.append((sig, f"a {kind} named `{name}` ({rel} of `{stem}`, a name the back end tests for): the emitted Go is rejected by Go's rules: "
+        why = f"a Go {wclass[3:]}" if wclass and wclass.startswith("go-") else "a name the emitted runtime uses" if wclass else f"{rel} of `{stem}`, a name the back end tests for"
+        found.append((sig_of("gocheck:" + errs[0]["code"]), f"a {kind} named `{name}` ({why}): the emitted Go is rejected by Go's rules: "
                            f"{errs[0]['code']} {errs[0]['detail'][:90]}" + (f" (+{len(errs) - 1} more)" if len(errs) > 1 else ""),
                       dict(payload, failure="gocheck:" + errs[0]["code"], errors=errs[:8])))
     cov = {"programs": n["programs"], "accepted": n["accepted"], "accepted_and_gocheck_ok": n["accepted_by_gocheck"],
            "rejected_by_front_end": n["rejected"], "rejected_at": dict(rejected_at), "compiler_panics": n["panic"], "rejected_by_gocheck": n["gocheck_rejects"], "first_error_codes": dict(codes),
+           "go_words": {"words": len(words), "programs": n["go_word_programs"], "programs_by_class": dict(by_class), "accepted_by_class": dict(acc_class),
+                        "classes": "go-keyword: the 25 keywords of the Go specification; go-predeclared: the 44 identifiers of the universe block; runtime-name: helper functions, imports, fixed parameter / field names and gensym prefixes of the emitted file (re-read from go/runtime.rs, go/compile.rs)"},
+           "goparse_keyword_selftest": "11 identifier positions x 25 Go keywords: all refused, the control identifier parses" if st is not None and st[1] == "ok" else "FAILED",
            "stems_read_from_the_rust": stems, "name_test_sites": [f"{f}:{ln} {op} {lit!r}" for f, ln, op, lit in nt["sites"]],
            "accepted_by_item_kind": dict(by_kind), "accepted_by_relation": dict(by_rel), "generator": feats, "samples": samples}
     return cov, found
